@@ -361,6 +361,8 @@ pub fn hyp(group: &str, f: Fm) {
 pub fn abstract_terms<T: Sc>(group: &str, terms: &[T]) {
     let ids: Vec<u32> = terms.iter().filter_map(|t| t.node_id()).collect();
     with(|e| {
+        // abstract below a negation, so that x and -x stay related
+        let ids: Vec<u32> = ids.iter().map(|&i| { let mut i = i; while let Node::Neg(x) = e.nodes[i as usize] { i = x; } i }).collect();
         if let Some(g) = e.absgroups.iter_mut().find(|(g, _)| g == group) {
             g.1.extend(ids);
         } else {
